@@ -100,6 +100,9 @@ pub fn compile_json(
 }
 
 pub(crate) fn first_pass(shape: &JsonShape, scope: &mut Scope) {
+    // names of the struct/enum definitions already written: a sub-shape that occurs more than
+    // once is defined once
+    let mut defined = BTreeSet::new();
     match &shape {
         json_shape::JsonShape::Null => {
             scope.new_type_alias("Void", "()").vis("pub");
@@ -137,52 +140,45 @@ pub(crate) fn first_pass(shape: &JsonShape, scope: &mut Scope) {
         } => {
             let name = shape_name(shape);
             create_array(scope, &name, *optional, inner);
-            create_subtype(scope, inner);
+            create_subtype(scope, inner, &mut defined);
         }
-        json_shape::JsonShape::Object { content, .. } => {
-            let name = shape_name(shape);
-            create_object(scope, &name, content);
-            for inner in content.values() {
-                create_subtype(scope, inner);
-            }
-        }
-        json_shape::JsonShape::OneOf { variants, .. } => {
-            let name = shape_name(shape);
-            create_enum(scope, &name, variants);
-            for inner in variants {
-                create_subtype(scope, inner);
-            }
+        json_shape::JsonShape::Object { .. } | json_shape::JsonShape::OneOf { .. } => {
+            create_subtype(scope, shape, &mut defined);
         }
         json_shape::JsonShape::Tuple { elements, optional } => {
             let name = shape_name(shape);
             create_tuple(scope, &name, *optional, elements);
             for inner in elements {
-                create_subtype(scope, inner);
+                create_subtype(scope, inner, &mut defined);
             }
         }
     }
 }
 
-fn create_subtype(scope: &mut Scope, shape: &JsonShape) {
+fn create_subtype(scope: &mut Scope, shape: &JsonShape, defined: &mut BTreeSet<String>) {
     match shape {
         json_shape::JsonShape::Array {
             r#type: inner,
             optional: _,
         } => {
-            create_subtype(scope, inner);
+            create_subtype(scope, inner, defined);
         }
         json_shape::JsonShape::Object { content, .. } => {
             let name = shape_name(shape);
-            create_object(scope, &name, content);
-            for inner in content.values() {
-                create_subtype(scope, inner);
+            if defined.insert(name.clone()) {
+                create_object(scope, &name, content);
+                for inner in content.values() {
+                    create_subtype(scope, inner, defined);
+                }
             }
         }
         json_shape::JsonShape::OneOf { variants, .. } => {
             let name = shape_name(shape);
-            create_enum(scope, &name, variants);
-            for inner in variants {
-                create_subtype(scope, inner);
+            if defined.insert(name.clone()) {
+                create_enum(scope, &name, variants);
+                for inner in variants {
+                    create_subtype(scope, inner, defined);
+                }
             }
         }
         json_shape::JsonShape::Tuple {
@@ -190,7 +186,7 @@ fn create_subtype(scope: &mut Scope, shape: &JsonShape) {
             optional: _,
         } => {
             for inner in elements {
-                create_subtype(scope, inner);
+                create_subtype(scope, inner, defined);
             }
         }
         _ => {}
